@@ -504,6 +504,11 @@ func runC17(r *Rand, tier string, o *Out) {
 		seqs = 600
 	}
 	msgID := uint32(100)
+	// a removal by the owner while the shutdown is telling the handlers
+	if out := o.Do("P", "ep.shutdownrace 20000 3", true); out != "ok" {
+		o.Fail("a handler removed during the shutdown: "+strings.SplitN(strings.TrimPrefix(out, "fail:"), " ", 2)[0], "ep.shutdownrace 20000 3 => "+out)
+	}
+	o.Count("scenario:removal-during-the-shutdown")
 	for s := 0; s < seqs; s++ {
 		if r.Chance(30) {
 			o.Do("P", "ep.reset close-reports-an-error", false)
